@@ -16,6 +16,12 @@ The tree is interpreted three times:
 
 Types of sub-expressions: "D" full domain, "P" D with space `pc` contracted (2-space domains only),
 "S" scalar domain, "T" MultiDomain target {"x": D, "y": D}.
+
+Two further sub-checks have their own recipes (see the sections "ptw_sweep" and "einsum_general"):
+  ptw_sweep      {"name", "cplx", "route", "args", "pts": 16 arguments, "pre": exponents of an inner diagonal
+                  Jacobian or None, "dom", "wm"} - one table entry on arguments spanning all magnitudes
+  einsum_general {"spaces": letter -> space, "ops": [{"key", "ss", "static", "val", "pre"}] in key_order,
+                  "out", "cplx", "optimize", "mode": "mle"|"linear", "domdict", "static_as", "ko_none", "wm"}
 """
 import numpy as np
 from hypothesis import strategies as st
@@ -30,24 +36,34 @@ LEVEL = "exploration"
 TECHNIQUE = "PBT: same expression recipe interpreted by NIFTy and by an independent JAX program; forward-mode AD oracle"
 RULE = ("Typed random expression trees (depth<=3 quick, <=4 thorough) over single domains and MultiDomains "
         "(2-3 keys, <=8 pixels per key) built from every entry of pointwise.ptw_dict (inputs kept inside the "
-        "region where the entry is differentiable), * + - / ** with operators, numbers and fields, "
+        "region where the entry is differentiable; affine pre-factors 2^k, k=-40..7, push the arguments into "
+        "the saturated and the near-zero regimes), * + - / ** with operators, numbers and fields, "
         "linear operators, sum/integrate/vdot/broadcast, key insertion/extraction, ducktape, real/imag/"
-        "conjugate, MultiLinearEinsum, JaxOperator and likelihood energies at the root. Oracle: the same "
+        "conjugate, MultiLinearEinsum (2-3 operands, drawn key_order/static fields/optimize), JaxOperator "
+        "(DomainTuple and MultiDomain) and energies at the root (incl. sums, scalings, StandardHamiltonian, "
+        "AveragedEnergy). Oracle: the same "
         "recipe interpreted as a pure JAX function; value vs op(x) vs op(Linearization).val; dense "
         "Jacobian (TIMES) vs forward-mode JAX Jacobian; dense adjoint vs (conjugate) transpose; metric vs "
-        "J^T M J with the closed-form Fisher metric M of the energy.")
+        "J^T M J with the closed-form Fisher metric M of the energy. Plus two dedicated sub-checks: "
+        "ptw_sweep (every table entry over its whole range: arguments m*2^k, k=-40..8, linear grid up to 448, "
+        "0, both signs, complex; value/f'/adjoint vs jnp + jax.jvp) and einsum_general (MultiLinearEinsum / "
+        "LinearEinsum with 2-4 operands, generated subscripts, every key order, static subsets, optimize "
+        "forms, real/complex vs a broadcast-multiply-sum reference).")
 LEVEL_TEXT = ("Generated search over operator expression trees with an independent automatic-differentiation "
               "oracle: every point-wise function of the table, every combinator named in the property and "
               "four likelihood energies are exercised in random compositions at random points; exact "
               "(round-off level) agreement of value, Jacobian, adjoint Jacobian and metric is demanded. "
               "Exploration, not proof: depth <= 4, <= 24 input pixels.")
 LEVEL_NOTE = ("Trusted: jax.numpy primitives and their JVP rules (x64), NumPy, the harness' own tree "
-              "interpreter. Points closer than a stated margin to kinks, poles and branch cuts are discarded.")
+              "interpreter. In the trees points closer than a stated margin to kinks, poles and branch cuts are "
+              "discarded; ptw_sweep knows its arguments exactly and only excludes the kink/pole itself.")
 ASSUMPTIONS = [
-    "valid input range of a ptw entry = where it is differentiable: log/log10/sqrt/reciprocal/non-integer or "
-    "negative power on values >= 1/16 (complex: also 0.05 rad away from the negative real axis), abs/sign/"
-    "unitstep/clip at least 1/32 away from their kinks and on real input only, tan/tanh/sigmoid away from "
-    "poles, sinc at 0 or |v| >= 1/64 (the library's derivative formula divides by v)",
+    "expression trees: valid input range of a ptw entry = where it is differentiable: reciprocal/non-integer or "
+    "negative power on values >= 1/16, real log/log10/sqrt on values >= 2^-12 (complex: |z| >= 1/16 and 0.05 rad "
+    "away from the negative real axis), abs/sign/"
+    "unitstep/clip at least 1/32 away from their kinks and on real input only (the tree oracle does not know "
+    "the argument exactly), tan/tanh/sigmoid away from poles; sinc everywhere (after the repair of its "
+    "small-argument derivative, REGIONS['sinc_small_argument'])",
     "power with exponent 0 is not generated (the library's derivative formula gives 0*inf at v=0)",
     "for expressions that are only real-linear in a complex input (real, imag, conjugate, vdot, complex "
     "Gaussian energy) 'Jacobian' and 'conjugate transpose' are meant in the real 2N representation "
@@ -57,6 +73,27 @@ ASSUMPTIONS = [
     "Fisher metrics used: Gaussian = inverse covariance, Poisson = diag(1/lambda), Bernoulli = "
     "diag(1/(p(1-p))), Student-t = diag((theta+1)/(theta+3)); StandardHamiltonian adds the identity",
     "Linearization.outer and calling ducktape_left on a Linearization are outside the property",
+    "ptw_sweep: documented range of an entry = all float64 arguments with |x| <= 448 (complex: |Re|,|Im| <= 112, "
+    "so that no intermediate of the library's closed forms overflows) at which it is differentiable: "
+    "sqrt/log/log10/non-integer or negative power: x > 0 (complex: off 0 and at least atan(1/16) off the negative "
+    "real axis); log1p: x > -1; reciprocal/abs/sign/unitstep: x != 0; clip: x != bounds (bounds: numbers, ints, "
+    "fields, None); complex tan/tanh/sigmoid/arctan/softplus: |cos|,|cosh|,|1+z^2|,|1+e^z| >= 1/64 and off the "
+    "branch cuts; complex softplus right of the library's cut-over (Re z > 33, result z) only for |Im z| <= 2 where "
+    "z is the principal value of log(1+e^z); abs/sign/clip/unitstep real only",
+    "ptw_sweep tolerance: |value - f| <= 1e-11 (|f| + |x f'| + 1) and |derivative - f'| <= 1e-11 (|f'| + |x f''| "
+    "+ 1) per argument (f, f', f'' from the harness' jnp expression by jax.jvp; sinc by its Maclaurin series "
+    "below |pi x| = 1/2 because differentiating sin(t)/t cancels): relative accuracy, plus the conditioning with "
+    "respect to the argument (argument reduction and composed formulas such as base**x = exp(x log base) lose "
+    "|x f'/f| ulps in either implementation), plus an absolute floor at the function's natural scale 1 "
+    "(closed forms like 1 - tanh(x)^2 or expm1(x) + 1 carry an absolute error of one ulp of 1). 1e-11 = ~5e4 "
+    "ulp leaves room for the few-ulp differences between NumPy's and XLA's elementary functions and still "
+    "resolves any wrong branch, factor or sign (errors of relative size >= 1e-10)",
+    "einsum_general: documented argument domain of MultiLinearEinsum/LinearEinsum = einsum subscripts 'a,b,..->o' "
+    "with one letter per space (a space may have several array axes), every letter at most once per operand and "
+    "once in the output, output letters drawn from the operands, key_order any order of the keys (None: sorted "
+    "keys, only without static fields), static_mf dict or MultiField, optimize as for numpy.einsum_path "
+    "(bool, 'greedy', 'optimal', explicit path); repeated letters inside one operand (traces/diagonals: the "
+    "adjoint cannot be written as an einsum) are not generated; tolerance 1e-10 * max(1, |J|, |value|)",
 ]
 
 VMAX = 1e3       # intermediate values beyond this are outside the generated range (discard)
@@ -158,7 +195,8 @@ def _is_posint(e):
 def guard_ptw(name, v, args):
     z = _np(v)
     if name in ("sqrt", "log", "log10"):
-        _pos(z)
+        # (the distance from the singularity enters the tolerance through the oracle's Jacobian bound)
+        _pos(z, 1. / 16 if np.iscomplexobj(z) else 2. ** -12)
     elif name == "log1p":
         _pos(1 + z)
     elif name == "reciprocal":
@@ -1630,10 +1668,12 @@ def _rescale(cx, name, args, sub):
     r = cx.r
     if not r.b(0.35):
         return sub
-    if name in BOUNDED:
+    if name in ("abs", "absolute", "sign", "unitstep"):
+        ks = [4, 5, 6, 7]       # (towards 0 is towards the kink: left to ptw_sweep, which knows the argument)
+    elif name in BOUNDED:
         ks = [3, 4, -10, -24, -40] if cx.cplx else [4, 5, 6, 6, 7, -10, -24, -40]
     elif name in ("sqrt", "log", "log10"):
-        ks = [-8, 4, 8]
+        ks = [4, 8] if cx.cplx else [-8, 4, 8]
     elif name == "reciprocal":
         ks = [4, 8, -3]
     elif name == "power":
@@ -2047,7 +2087,7 @@ def _gen_energy_root(cx, depth):
     if cx.feats.get("ham"):
         opts += ["ham"] * 2
     if cx.feats.get("avg"):
-        opts += ["avg"] * 2
+        opts += ["avg"]
     w = r.ch(opts)
     if w == "plain":
         return _gen_energy(cx, depth)
@@ -2767,7 +2807,7 @@ SUBS = [
              "Jacobian incl. its zeros, times an inner diagonal Jacobian) and adjoint against the harness' jnp "
              "expression differentiated by jax.jvp; allowed error 1e-11*(|f'| + |x f''| + 1); "
              "non-trivial = the 16 arguments cover >= 3 magnitude/sign regimes"),
-    Sub(name="einsum_general", check=check_einsum, strategy=_ein_strategy, quick=400, thorough=20000, shards=1,
+    Sub(name="einsum_general", check=check_einsum, strategy=_ein_strategy, quick=300, thorough=20000, shards=1,
         rule="MultiLinearEinsum (75%) and LinearEinsum (25%) with 2-4 operands over generated subscripts "
              "(<= 4 index letters of size 1-3 or a 2-axis space; contractions, batch, outer and lonely summed "
              "indices, scalar operands, transposed orders), equal and unequal operand shapes, drawn key names "
